@@ -291,6 +291,49 @@ func checkC08(r *Run) {
 			}
 		}
 	})
+	// generated near misses: every line of 1-4 tokens with every placement of single / double SP and HT between,
+	// before and after them; only 'tok SP tok SP tok' (and status lines 'SIP/2.0 SP 200 SP ...') are well formed
+	var gen []string
+	toks := []string{"A", "sip:b", "SIP/2.0", "200"}
+	seps := []string{" ", "  ", "\t"}
+	var build func(cur string, k, left int, single bool)
+	build = func(cur string, k, left int, single bool) {
+		if left == 0 {
+			for _, trail := range []string{"", " "} {
+				valid3 := single && k == 3 && trail == ""
+				if valid3 || strings.HasPrefix(cur, "SIP/2.0 200 ") || (cur == "SIP/2.0 200" && trail == " ") {
+					continue
+				}
+				gen = append(gen, cur+trail+"\r\n")
+			}
+			return
+		}
+		for _, t := range toks {
+			if cur == "" || strings.TrimLeft(cur, " \t") == "" {
+				build(cur+t, k, left-1, single)
+				continue
+			}
+			for _, sp := range seps {
+				build(cur+sp+t, k, left-1, single && sp == " ")
+			}
+		}
+	}
+	for k := 1; k <= 4; k++ {
+		for _, lead := range []string{"", " ", "\t", "  "} {
+			build(lead, k, k, lead == "")
+		}
+	}
+	parallelFor(r, len(gen), func(c *enumCtx, i int) {
+		for _, via := range []bool{false, true} {
+			vs := evalC08(flCase{Kind: "nearmiss", A: "token-sequence", ViaMsg: via}, []byte(gen[i]))
+			c.st.Evals++
+			c.st.Transitions++
+			c.st.Outcomes["nearmiss"]++
+			for _, v := range vs {
+				r.Col.add(v)
+			}
+		}
+	})
 	for cls, ls := range near {
 		for _, l := range ls {
 			for _, via := range []bool{false, true} {
